@@ -445,7 +445,7 @@ class System:
         for ev, want, got in w.edit_results:
             if (got == "ok") != (want == "ok"):
                 # was the edited name materialised earlier as prefix + user symbol (a derived row the library wrote back)?
-                derived = any(ev[1] == p + e[1] for p in ("k", "M", "u", "m") for e in hist if e[0] in ("add", "def") and e[1] != ev[1])
+                derived = any(ev[1] == p + e[1] for p in ("k", "M", "u", "m") for e in self.prefix + tuple(hist) if e[0] in ("add", "def") and e[1] != ev[1])
                 ctx.violation(
                     f"C12|edit|kind={ev[0]}|want={want}|got={got.split(':')[0]}|name={'earlier-derived-prefixed-row' if derived else 'plain'}|mode=edit-outcome",
                     case,
@@ -538,9 +538,16 @@ class System:
                     if (a[0], b[0]) == ("ok", "ok")
                     else f"{a[0]}-vs-{b[0]}"
                 )
+                # does the registry table still hold a prefixed row the LIBRARY derived and wrote back earlier (kfoo from
+                # foo) for a name in this probe?  Then this is the one known defect "derived prefixed rows are never
+                # invalidated", whatever the edit that exposed it was; any other staleness keeps its full coordinates.
+                import re as _re
+
+                left = [t for t in _re.findall(r"[A-Za-zµ_]+", s) if t in w.r.lut and w.T.get(t) is None and t not in default_ref()]
+                coord = "cause=derived-prefixed-row-left-in-table" if left and mode in ("stale-value", "resolves-after-removal") else (
+                    f"edit={info['last_edit'].get(_base(s), 'none')}|seeded={int(_seeded(hist, s))}")
                 ctx.violation(
-                    f"C12|unit|probe={_pclass(s)}|edit={info['last_edit'].get(_base(s), 'none')}"
-                    f"|seeded={int(_seeded(hist, s))}|mode={mode}",
+                    f"C12|unit|probe={_pclass(s)}|{coord}|mode={mode}",
                     {"history": case["history"], "prefix": case["prefix"], "probe": s},
                     b,
                     a,
